@@ -64,7 +64,12 @@ def make_strategy(script, log):
             from jesse.store import store
             from jesse.routes import router
             d = []
-            for r in router.all_formatted_routes:
+            # every route's timeframe, and the one-minute candles of every routed symbol (always readable by a strategy)
+            routes_ = list(router.all_formatted_routes)
+            for sym_ in sorted({(r['exchange'], r['symbol']) for r in routes_}):
+                if not any(r['exchange'] == sym_[0] and r['symbol'] == sym_[1] and r['timeframe'] == '1m' for r in routes_):
+                    routes_.append({'exchange': sym_[0], 'symbol': sym_[1], 'timeframe': '1m'})
+            for r in routes_:
                 try:
                     arr = store.candles.get_candles(r['exchange'], r['symbol'], r['timeframe'])
                     last = tuple(float(x) for x in arr[-1]) if len(arr) else ()
@@ -386,6 +391,10 @@ def run_session(candles_by_symbol, routes, data_routes=(), exchange_type='future
             snap['final'] = {k_: float(v) for k_, v in e.assets.items()}
             snap['liquidations'] = store.app.total_liquidations
             snap['positions'] = {k_: float(p.qty) for k_, p in store.positions.storage.items()}
+            # the one-minute candles every strategy can read, as stored at the end of the session
+            import zlib as _z
+            snap['stored_1m'] = {k_: [len(a_), _z.crc32(repr([[float(x) for x in r_] for r_ in a_[:]]).encode())]
+                                 for k_, a_ in store.candles.storage.items() if k_.endswith('-1m')}
         except Exception as ex:
             snap['snap_error'] = repr(ex)
         return r
